@@ -108,7 +108,7 @@ CHECKS = {
                        "(as left; in-progress output truncated at a length >= the checkpointed offset; bytes after the checkpointed offset "
                        "overwritten with garbage; later staged files deleted; and, for lag 0, the disk exactly as it was at the instant the checkpoint was handed to the consumer - a copy of the output "
                        "and stage folders taken inside Save, i.e. the process died there and nothing it held in memory reached the disk), up to a per-patch cap. Each resume uses a brand-new "
-                       "patcher, bowl and pool and the gob-decoded checkpoint. Also ShouldSave bit patterns and chains of 2-4 interruptions. "
+                       "patcher, bowl and pool and the gob-decoded checkpoint; in a third of the cases the checkpoints handed to Save are kept as objects and serialized only when the session has ended (a later save must not change an earlier checkpoint). Also ShouldSave bit patterns and chains of 2-4 interruptions. "
                        "Oracle: resumed run returns nil and the tree equals the new build; liveness: an uncompressed patch with a streamed "
                        "series of >=4 messages must offer >=1 checkpoint; and a calibrated shape (one 4-6 MiB file cut every two blocks by "
                        "100-200KB of fresh data: >=65 messages, 3-5 MiB patch) must offer >=1 checkpoint under none, gzip (any level) and "
